@@ -58,6 +58,31 @@ CLAIMED = {
             'lambda in [0,1] on a solver-checked abstraction.',
             'shrinkage estimators only for residual rank <=2 (rank 3: z3 unknown) and not through cov_from_measurements; precision of the '
             'Ledoit-Wolf estimate outside (z3 unknown); real arithmetic; branch feasibility answered unknown is explored anyway (sound)'),
+    'C11': ('DESIGN.md 4/C11',
+            'Every sequence of <=2|3 dataset operations (split/subset by observation, channel, time; sort_by; split+merge; odd-even and '
+            'nested splits; per-condition averages; measurement tensor; DataFrame round trip; time binning; time-as-observations/channels; '
+            'copy) on Dataset / TemporalDataset objects with symbolic measurements, incl. size-1 observation, channel and time dimensions '
+            'and duplicate descriptor values, is compared with a reference model keyed by unique observation/channel/time names: each '
+            'entry must be THE source variable, bins and averages the mean of exactly the right variables (solver-decided identities), '
+            'splits partition, subsets keep order, sorting is the stable permutation, receivers and sources unaffected.',
+            'shapes <=4|5 obs x <=3 channels x <=3 time points; empty selections and repeated time values in time_as_observations are '
+            'inadmissible arguments (raise) and excluded; bin_time is exercised without additional time descriptors (it cannot bin them)'),
+    'C12': ('DESIGN.md 4/C12',
+            'A curated table of 89 public callables of rdm, data, model, inference and util is run on symbolic arguments; on every path '
+            'each element of each argument array is proved (z3) to still equal its original variable, so value-dependent writes such as '
+            'd[d<0]=0 are found although they never fire on positive fixtures; descriptors are compared with deep copies; results are '
+            'checked for independence in both directions by writing fresh variables and applying reorder/sort_by/append. Callables '
+            'missing from the table are listed in the evidence (inventory) and are outside the claim.',
+            'table is curated, not exhaustive; saving (I/O), rescale (data-dependent loop) and the compiled unbalanced estimator are outside; '
+            'zero-norm / constant RDMs excluded by assumption; branches whose feasibility z3 cannot decide (zero-norm pooled RDMs) are not '
+            'explored; model classes keeping a reference to the caller\'s RDMs are recorded as known findings'),
+    'C17': ('DESIGN.md 4/C17',
+            'Real rank_/sqrt_/positive_/minmax_/geotopological_transform and transform() executed symbolically: rank transform over every '
+            'weak ordering of 3 entries (all 5 rank methods, NaN positions), sqrt/positive as max(x,0) identities without forking, minmax '
+            'and the clipped-linear geo-topological map on every ordering path, descriptor and measure-name propagation; rank measures '
+            '(spearman, rho-a, tau-a, tau-b) proved unchanged under symbolic positive affine maps, sqrt and x^3+x on all 169 ordering '
+            'paths; cosine under positive scaling and corr under positive affine maps as identities (plain and whitened).',
+            'geodesic_transform outside (networkx rejects object arrays; no model built); 3 conditions for everything that forks on orderings'),
 }
 
 NA = {
